@@ -811,9 +811,15 @@ func propTable() map[string]*PropSpec {
 			c.Params["views"] = 2
 			return c
 		}
-		q := []RunConfig{mkv(3), mk(4)}
+		mkm := func(k int) RunConfig { // the handler may move the node to the next view of the same height while it handles a message
+			c := mk(k)
+			c.Name += "/viewmoves=1"
+			c.Params["viewmoves"] = 1
+			return c
+		}
+		q := []RunConfig{mkv(3), mk(4), mkm(3)}
 		q[0].RequireReach = []string{"C17.advanced"}
-		th := []RunConfig{mkv(3), mk(4), mkv(4), mk(5)}
+		th := []RunConfig{mkv(3), mk(4), mkv(4), mk(5), mkm(3), mkm(4)}
 		th[0].RequireReach = []string{"C17.advanced"}
 		// the real worker: cached traffic that completes its height from inside the start of the round
 		fr := rc("C13_FutureRound/me=1", ".", "C13_FutureRound", map[string]int{"me": 1})
@@ -836,7 +842,7 @@ func propTable() map[string]*PropSpec {
 		th = append(th, mlf)
 		t["C17"] = &PropSpec{ID: "C17", Quick: q, Thorough: th, LabelPrefixes: []string{"C17."},
 			Assumptions: []string{"messages are PREPAREs built with the real factory; the message number is carried in the (concrete) view field; reading of the ordering clause: 'before it' = before the node starts height H (DESIGN.md section 6/C17)"},
-			Bounds:      []string{"k operations (quick 3 and 4, thorough up to 5), each a symbolic choice of receive(message with symbolic 64-bit height, symbolic instance, symbolic sender byte) or advance(symbolic larger height); start height symbolic >= 1"},
+			Bounds:      []string{"k operations (quick 3 and 4, thorough up to 5), each a symbolic choice of receive(message with symbolic 64-bit height, symbolic instance, symbolic sender byte) or advance(symbolic larger height); start height symbolic >= 1; optionally the message handler moves the node to the next view of the same height at symbolic deliveries"},
 			Outside:     []string{"sequences longer than 5 operations"},
 		}
 	}
